@@ -188,30 +188,51 @@ def check(ctx: Ctx) -> None:
         for (i, fld) in ((0, "st_mode"), (1, "st_mtime"), (2, "st_size")):
             if (i, fld) not in seen_roles:
                 ob.violation(f_rds, f_rds.node, f"position {i} of the file entry is not compared with st.{fld}: the tuple roles of sender and receiver disagree", construct=f"entry[{i}] never compared with {fld}")
-        # second consumer: the content loop over the recorded (path, entry) pairs
+        # second consumer: the content loop over what receive_directory_structure recorded for each file it asked for.  The
+        # record may be (path, msg), a flat (path, mode, mtime, size) or any other tuple nesting: what the loop reads from an entry is
+        # projected through the recorded tuple and must be the transmitted mode (msg[0]) for chmod and mtime (msg[1]) for utime
+        records = []
+        for (_p, st) in rds_paths:
+            m = msg_of(st)
+            for e in st.events:
+                if e.kind == "call" and e.callee == "modifiedfiles.append" and e.args:
+                    if (e.args[0], m) not in records:
+                        records.append((e.args[0], m))
+                    if not (e.args[0][0] == "tuple" and m is not None):
+                        ob.violation(f_rds, e.node, "the (path, entry) pair is not recorded for the content step")
+        if not records:
+            ob.violation(f_rds, f_rds.node, "the (path, entry) pair is not recorded for the content step", construct="no record")
+
+        def proj(t, E, R):
+            if t == E:
+                return R
+            if isinstance(t, tuple) and t and t[0] == "idx" and len(t) == 3:
+                px = proj(t[1], E, R)
+                if isinstance(px, tuple) and px and px[0] == "tuple" and t[2][0] == "const" and isinstance(t[2][1], int) and 0 <= t[2][1] < len(px) - 1:
+                    return px[1 + t[2][1]]
+                return ("idx", px, t[2])
+            if isinstance(t, tuple) and t and t[0] == "tuple":
+                return ("tuple",) + tuple(proj(x, E, R) for x in t[1:])
+            return t
         nmeta = 0
         for (_p, st) in srv_paths:
             for e in st.events:
-                if e.kind == "call" and e.callee in ("os.chmod", "os.utime") and len(e.args) == 2 and e.args[0][0] == "idx" and is_entry(e.args[0][1], st):
-                    E = e.args[0][1]
+                if e.kind == "call" and e.callee in ("os.chmod", "os.utime") and len(e.args) == 2:
+                    ents = [x for x in subterms(e.args[0]) if is_entry(x, st)]
+                    if not ents:
+                        continue
+                    E = ents[0]
                     nmeta += 1
-                    want_ = ("idx", ("idx", E, const(1)), const(0)) if e.callee == "os.chmod" else ("tuple", ("idx", ("idx", E, const(1)), const(1)), ("idx", ("idx", E, const(1)), const(1)))
-                    ok = e.args[0] == ("idx", E, const(0)) and e.args[1] == want_
+                    ok = bool(records)
+                    for (R, m) in records:
+                        want_ = ("idx", m, const(0)) if e.callee == "os.chmod" else ("tuple", ("idx", m, const(1)), ("idx", m, const(1)))
+                        if not (proj(e.args[0], E, R) == ("sym", "path") and proj(e.args[1], E, R) == want_):
+                            ok = False
                     ob.site(f_srv, e.node, f"content loop: {e.callee} gets the transmitted {'mode' if e.callee == 'os.chmod' else 'mtime'} of the recorded entry", ok=ok)
                     if not ok:
                         ob.violation(f_srv, e.node, "the content loop does not apply the transmitted (mode -> chmod, mtime -> utime) in their roles")
         if nmeta < 2:
             ob.violation(f_srv, f_srv.node, "the content loop does not apply the transmitted (mode -> chmod, mtime -> utime) in their roles", construct="no chmod/utime on recorded entries")
-        rec = 0
-        for (_p, st) in rds_paths:
-            m = msg_of(st)
-            for e in st.events:
-                if e.kind == "call" and e.callee == "modifiedfiles.append":
-                    rec += 1
-                    if not e.args or e.args[0] != ("tuple", ("sym", "path"), m):
-                        ob.violation(f_rds, e.node, "the (path, entry) pair is not recorded for the content step")
-        if rec == 0:
-            ob.violation(f_rds, f_rds.node, "the (path, entry) pair is not recorded for the content step", construct="no record")
         # the request ("send", (relcomponents, checksum)) -> _send_item(channel, req[1][0], req[1][1])
         rq = 0
         for (_p, st) in rds_paths:
@@ -273,7 +294,9 @@ def check(ctx: Ctx) -> None:
                     if fi is f_rds:
                         sent_mode = [("idx", m, const(0))] + [x.result for x in st.events if x.kind == "call" and x.attr == "pop" and x.recv == m and x.args == (const(0),)]
                     else:
-                        sent_mode = [M] if (M[0] == "idx" and M[2] == const(0) and M[1][0] == "idx" and M[1][2] == const(1) and is_entry(M[1][1], st)) else []
+                        # what the content loop reads from its entry, projected through what was recorded (C17.b): the transmitted mode msg[0]
+                        ents_ = [x for x in subterms(M) if is_entry(x, st)]
+                        sent_mode = [M] if ents_ and records and all(proj(M, ents_[0], R_) == ("idx", m_, const(0)) for (R_, m_) in records) else []
                     plain = M in sent_mode
                     ok = plain or (in_dir and M[0] == "bin" and M[1] == "BitOr" and M[2] in sent_mode and M[3] in (const(0o700),))
                     if id(e.node) not in seen:
